@@ -172,7 +172,9 @@ pub fn parse_shape(pos: usize, doc: &str) -> Option<(u8, String)> {
     if !matches!(it.next(), Some((Event::StreamStart, _))) {
         return None;
     }
-    if !matches!(it.next(), Some((Event::DocumentStart(false), _))) {
+    // the document start is implicit, except after the writer's `%YAML 1.2` + `---` preamble
+    let explicit = text.starts_with("%YAML 1.2\n---\n");
+    if !matches!(it.next(), Some((Event::DocumentStart(e), _)) if *e == explicit) {
         return None;
     }
     let mut found: Option<(u8, String)> = None;
@@ -332,7 +334,7 @@ fn is_doc_marker(s: &str) -> bool {
 
 /// first character of the scalar as emitted (after the `%YAML` preamble and the position's opening)
 fn scalar_start(pos: usize, doc: &str) -> Option<char> {
-    let t = doc.strip_prefix("%YAML 1.2\n").unwrap_or(doc);
+    let t = doc.strip_prefix("%YAML 1.2\n---\n").unwrap_or(doc);
     let t = match pos {
         0 | 2 => t,
         1 => t.strip_prefix("k: ")?,
@@ -351,9 +353,9 @@ fn scalar_start(pos: usize, doc: &str) -> Option<char> {
 /// Assign a stable class id to a failing string round trip by looking at the INPUT, the options and
 /// the emitted form (never at the way it failed).
 fn classify_str(pos: usize, s: &str, doc: &str, o: &O) -> String {
-    // every document written with `yaml_12: true` starts with a `%YAML 1.2` directive that is not
-    // followed by `---`: the crate's own reader rejects it, whatever the value is
-    if o.y12 {
+    // a `%YAML 1.2` directive that is not followed by `---` is rejected by the crate's own reader,
+    // whatever the value is (repaired by 832e31b: the preamble now carries the marker)
+    if o.y12 && !doc.starts_with("%YAML 1.2\n---\n") {
         return "C12-yaml12-directive-without-document-start".into();
     }
     let st = scalar_start(pos, doc);
@@ -422,8 +424,11 @@ fn check_string(or: &mut Oracle, sink: &mut Sink, s: &str, o: &O) {
             // schema-less reading: the same text must still denote the same *string*
             let u = untyped_scalar(pos, &doc);
             if u != Ok(U::S(owned.clone())) {
-                sink.count("oracle.fail.C12-untyped-not-string");
-                or.fail("C12-untyped-not-string", "a string is emitted in a form that a schema-less reader (deserialize_any) reads as a number / another string",
+                // residue: with yaml_12 the YAML 1.1 boolean words are left plain on purpose, but the
+                // default (non strict_booleans) reader still takes them for booleans
+                let id = if o.y12 && hs::parse_yaml11_bool(s).is_some() { "C12-yaml12-bool-word-plain" } else { "C12-untyped-not-string" };
+                sink.count(&format!("oracle.fail.{id}"));
+                or.fail(id, "a string is emitted in a form that a schema-less reader (deserialize_any) reads as a number / a boolean / another string",
                     format!("pos={} opts=[{}] s=\"{}\" hex={}", POS_NAMES[pos], o.toks(), esc(s), hex(s)),
                     format!("emitted=\"{}\" untyped={:?}", esc(&doc), u), format!("S(\"{}\")", esc(s)));
             }
@@ -450,7 +455,7 @@ where
         if !matches!(&back, Ok(b) if same(b, v)) {
             // a char is written by `serialize_str`: its failures belong to the string classes
             let as_str: Option<String> = if kind == "char" { serde_json::to_value(v).ok().and_then(|j| j.as_str().map(|x| x.to_string())) } else { None };
-            let id = if o.y12 { "C12-yaml12-directive-without-document-start".to_string() }
+            let id = if o.y12 && !doc.starts_with("%YAML 1.2\n---\n") { "C12-yaml12-directive-without-document-start".to_string() }
                 else if let Some(cs) = &as_str { classify_str(pos, cs, &doc, o) }
                 else { format!("C12-other-{kind}") };
             sink.count(&format!("oracle.fail.{id}"));
